@@ -453,6 +453,41 @@ Proof.
   apply andb_true_iff in H. exact H.
 Qed.
 
+(* closure, all 256 values: a value with an encoder has the decoder and the splitter OF THE SAME coding.
+   Encoder, decoder and splitter were classified separately, each by its behaviour on every scalar value
+   (dc_closure); the value's three classes must be those of one table constant b: its encoder behaves like
+   b's, its decoder like b's decoder, its splitter like b's splitter. *)
+Definition closed_dc (dc : N) : bool :=
+  let e := enc_class dc in
+  Bool.eqb (has_encoder dc) (negb (e =? 255)) &&
+  ((e =? 255) ||
+   (existsb (N.eqb e) table_constants && (enc_class e =? e) &&
+    (dec_class dc =? dec_class e) && (spl_class dc =? spl_class e) &&
+    negb (dec_class dc =? 255) && negb (spl_class dc =? 255))).
+
+Lemma dc_closure_rows :
+  forallb (fun dc => match closure_row dc with Some (c, _, _, _) => c =? dc | None => false end) octets256 = true.
+Proof. vm_compute. reflexivity. Qed.
+
+Lemma closed_check : forallb closed_dc octets256 = true.
+Proof. vm_compute. reflexivity. Qed.
+
+Theorem dc_closed dc : dc < 256 -> has_encoder dc = true ->
+  dec_class dc <> 255 /\ spl_class dc <> 255 /\
+  exists b, In b table_constants /\ enc_class dc = b /\ enc_class b = b /\
+            dec_class dc = dec_class b /\ spl_class dc = spl_class b.
+Proof.
+  intros Hdc He. pose proof closed_check as H. rewrite forallb_forall in H.
+  specialize (H dc (octets256_spec dc Hdc)). unfold closed_dc in H. cbv zeta in H.
+  rewrite He in H. apply andb_true_iff in H. destruct H as [H0 H].
+  destruct (enc_class dc =? 255) eqn:E255; [discriminate H0|]. cbn [orb] in H.
+  rewrite !andb_true_iff, !negb_true_iff, !N.eqb_neq, !N.eqb_eq in H.
+  destruct H as [[[[[H1 H2] H3] H4] H5] H6].
+  split; [exact H5|]. split; [exact H6|]. exists (enc_class dc).
+  apply existsb_exists in H1. destruct H1 as [b [Hin Hb]]. apply N.eqb_eq in Hb. subst b.
+  repeat split; assumption.
+Qed.
+
 (* the ten table entries themselves are available, and resolve to themselves *)
 Lemma base_codings_resolve :
   forallb (fun c => has_encoder (dc_of_coding c) &&
@@ -476,7 +511,13 @@ Qed.
 Theorem encode_no_panic c rs : encode c rs <> Panic.
 Proof. destruct c; cbn [encode]; try apply encode_t_no_panic. apply encode_jp_no_panic. Qed.
 
+(* ISO-2022-JP: the only character that may fail to come back is ESC itself (RFC 1468 reserves it; the property
+   excludes it) - whether the running codec passes it through, escapes it or rejects it is not pinned *)
 Lemma rt_observed :
   rt_bad_ascii = [] /\ rt_bad_latin1 = [] /\ rt_bad_cyrillic = [] /\ rt_bad_hebrew = [] /\ rt_bad_ucs2 = [] /\
-  rt_bad_sjis = [] /\ rt_bad_eucjp = [] /\ rt_bad_euckr = [] /\ rt_bad_iso2022jp = [27] /\ unparsed_iso2022jp = [].
-Proof. repeat split; reflexivity. Qed.
+  rt_bad_sjis = [] /\ rt_bad_eucjp = [] /\ rt_bad_euckr = [] /\ (forall r, In r rt_bad_iso2022jp -> r = 27) /\ unparsed_iso2022jp = [].
+Proof.
+  repeat split; try reflexivity.
+  assert (H : forallb (N.eqb 27) rt_bad_iso2022jp = true) by (vm_compute; reflexivity).
+  rewrite forallb_forall in H. intros r Hin. symmetry. apply N.eqb_eq. exact (H r Hin).
+Qed.
